@@ -422,36 +422,7 @@ fn c11_dom<D: Dom>(cx: &RunCtx) {
         }
         run_list::<D>(cx, "E-AGG argument lists with the placeholder x critical pool", &at_inputs, &D::pool_critical(), &kinds);
         if D::EV == Ev::I64 {
-            // the operands on which Euclid's algorithm runs longest: neighbouring Fibonacci numbers up to F(92) < 2^63
-            // (91 remainder steps), their multiples, negatives, both orders and triples — a capped or shortcut loop
-            // is right on every other pair
-            let mut fib: Vec<i128> = vec![1, 1];
-            while fib.len() < 93 {
-                let n = fib.len();
-                fib.push(fib[n - 1] + fib[n - 2]);
-            }
-            let mut fl: Vec<String> = Vec::new();
-            for n in 2..92usize {
-                let (a, b, c) = (fib[n], fib[n + 1], fib[n - 1]);
-                if b > i64::MAX as i128 {
-                    break;
-                }
-                for name in ["gcd", "lcm"] {
-                    fl.push(format!("{}({},{})", name, a, b));
-                    fl.push(format!("{}({},{})", name, b, a));
-                    fl.push(format!("{}(-{},{})", name, b, a));
-                    fl.push(format!("{}({},{},{})", name, b, a, c));
-                    fl.push(format!("{}({},{},{})", name, c, b, a));
-                    for k in [2i128, 3, 6, 1000003] {
-                        if b * k <= i64::MAX as i128 {
-                            fl.push(format!("{}({},{})", name, a * k, b * k));
-                            fl.push(format!("{}({},{})", name, b * k, a * k));
-                        }
-                    }
-                    fl.push(format!("{}({},@)", name, b));
-                    fl.push(format!("{}(@,{})", name, a));
-                }
-            }
+            let fl = refmodel::families::fibonacci_gcd();
             let fib_at: Vec<D::V> = D::pool_critical().into_iter().take(6).collect();
             run_list::<D>(cx, "E-AGG gcd / lcm over neighbouring Fibonacci numbers (longest Euclid runs)", &fl, &fib_at, &kinds);
         }
